@@ -252,7 +252,7 @@ def bufs_check(ctx, own, nscripts, nsteps, mc_consts, rule, assumptions):
     with open(mc_cfg, "w") as f:
         f.write("SPECIFICATION Spec\nCONSTANTS\n NB = %d\n MaxSteps = %d\n Paths = {\"f1\", \"f2\"}\n"
                 "INVARIANT Inv\nPROPERTY ActionProps\nVIEW View\nCHECK_DEADLOCK FALSE\n" % mc_consts)
-    mc = tlc_model(ctx, "MC_Bufs", mc_cfg, timeout=3000, heap="16g")
+    mc = tlc_model(ctx, "MC_Bufs", mc_cfg, timeout=6000, heap="16g")
     scripts = gen_bufscripts(ctx, 1, 1, extra={"MODE": "corpus"}) + gen_bufscripts(ctx, nscripts, nsteps)
     # long sessions over 17 and 19 paths: the 16-slot table fills up and the least recently used buffers are revisited and evicted
     scripts += gen_bufscripts(ctx, max(16, nscripts // 8), 2 * nsteps + 20, extra={"NPATHS": 17}) + \
